@@ -445,7 +445,40 @@ class HelperInliner:
         self._cache[callee.qual] = res
         return res
 
+    def debool(self, expr):
+        """`True if f(..) else False` is `f(..)` when f is a repo function / uniquely named repo method that returns bools only."""
+        repo, mod = self.repo, self.fi.module
+
+        def bool_call(c):
+            if not isinstance(c, ast.Call):
+                return False
+            fn = dotted(c.func) or ''
+            if fn and not fn.startswith('self.'):
+                q = repo.resolve_dotted(mod, fn)
+                if q in repo.funcs:
+                    return returns_bool(repo, repo.funcs[q])
+            if isinstance(c.func, ast.Attribute):
+                cands = [f for f in repo.funcs.values() if f.name == c.func.attr and f.cls]
+                return len(cands) == 1 and returns_bool(repo, cands[0])
+            return False
+        if not any(isinstance(n, ast.IfExp) and isinstance(n.body, ast.Constant) and n.body.value is True and isinstance(n.orelse, ast.Constant)
+                   and n.orelse.value is False and bool_call(n.test) for n in ast.walk(expr)):
+            return expr
+
+        class B(ast.NodeTransformer):
+            def visit_IfExp(self, n):
+                self.generic_visit(n)
+                if isinstance(n.body, ast.Constant) and n.body.value is True and isinstance(n.orelse, ast.Constant) and n.orelse.value is False and bool_call(n.test):
+                    return n.test
+                return n
+        return B().visit(copy_ast(expr))
+
     def expand(self, expr, depth=None):
+        if expr is not None and isinstance(expr, ast.AST):
+            try:
+                expr = self.debool(expr)
+            except Exception:
+                pass
         depth = self.depth if depth is None else depth
         if expr is None or depth <= 0:
             return expr
@@ -1327,6 +1360,27 @@ def canonical_func(fi):
 
         def visit_If(self, n):
             self.generic_visit(n)
+            # a flag that records which arm ran: `if c: A; v = True else: B; v = False` is `v = c; if c: A else: B`
+            if n.body and n.orelse and isinstance(n.test, (ast.Compare, ast.BoolOp)) and not any(isinstance(x, (ast.Call, ast.NamedExpr)) and not (
+                    isinstance(x, ast.Call) and isinstance(x.func, ast.Name) and x.func.id == 'len') for x in ast.walk(n.test)):
+                la, lb = n.body[-1], n.orelse[-1]
+                flag = lambda x: isinstance(x, ast.Assign) and len(x.targets) == 1 and isinstance(x.targets[0], ast.Name) and isinstance(x.value, ast.Constant) \
+                    and isinstance(x.value.value, bool)
+                if flag(la) and flag(lb) and la.targets[0].id == lb.targets[0].id and la.value.value != lb.value.value:
+                    v = la.targets[0].id
+                    rest = n.body[:-1] + n.orelse[:-1]
+                    if v not in names_in(n.test) and not any(v in names_in(st) for st in rest):
+                        val = n.test if la.value.value else ast.UnaryOp(op=ast.Not(), operand=n.test)
+                        first = ast.copy_location(ast.Assign(targets=[ast.Name(id=v, ctx=ast.Store())], value=copy_ast(val)), n)
+                        out_ = [ast.fix_missing_locations(first)]
+                        if n.body[:-1] or n.orelse[:-1]:
+                            if n.body[:-1]:
+                                n.body, n.orelse = n.body[:-1], n.orelse[:-1]
+                                out_.append(n)
+                            else:
+                                neg = ast.copy_location(ast.If(test=ast.UnaryOp(op=ast.Not(), operand=n.test), body=n.orelse[:-1], orelse=[]), n)
+                                out_.append(ast.fix_missing_locations(neg))
+                        return out_
             # a conditional update `if a < b: b = a` is `b = min(b, a)` (and `>` / max)
             if len(n.body) == 1 and not n.orelse and isinstance(n.body[0], ast.Assign) and len(n.body[0].targets) == 1 \
                     and isinstance(n.body[0].targets[0], (ast.Name, ast.Attribute)) and isinstance(n.test, ast.Compare) and len(n.test.ops) == 1 \
@@ -1594,6 +1648,17 @@ def canonical_func(fi):
         prev = now
     ast.fix_missing_locations(node)
     node = _split_versions(fi, node)
+    # every web is a variable of its own now: a re-bound parameter read once by the next statement is a temporary like any other
+    prev = None
+    for _ in range(3):
+        forward_substitute(node.body)
+        node = D().visit(node)
+        ast.fix_missing_locations(node)
+        merge_tail_returns(node.body)
+        now = ast.dump(node)
+        if now == prev:
+            break
+        prev = now
     node = _fold_temp_loops(node)
     sink_returns(node.body)          # arms that end in `v = f(v_earlier)` are assignments of a fresh web now
     # positions follow the canonical shape (pre-order), the original line is kept for reports
@@ -1657,6 +1722,66 @@ def returns_container(repo, callee, depth):
     rets = [n.value for n in walk_shallow(node) if isinstance(n, ast.Return)]
     ok = bool(rets) and all(r is not None and is_c(r, depth, set()) for r in rets)
     _RC_MEMO[key] = ok
+    return ok
+
+
+_RB_MEMO = {}
+
+
+def returns_bool(repo, callee, depth=3):
+    """Every value the function returns is a bool: a comparison, not .., and / or of such, True / False, any() / all() /
+    isinstance() / bool(), a local bound only to such values, or a call of a repo function / method for which the same holds."""
+    key = callee.qual
+    if key in _RB_MEMO:
+        return _RB_MEMO[key]
+    _RB_MEMO[key] = False
+    node = callee.node
+    assigns = {}
+    for n in walk_shallow(node):
+        if isinstance(n, ast.Assign) and len(n.targets) == 1 and isinstance(n.targets[0], ast.Name):
+            assigns.setdefault(n.targets[0].id, []).append(n.value)
+        elif isinstance(n, (ast.For, ast.With, ast.AugAssign)) or (isinstance(n, ast.Assign) and not (len(n.targets) == 1 and isinstance(n.targets[0], ast.Name))):
+            for x in ast.walk(n.target if isinstance(n, (ast.For, ast.AugAssign)) else n):
+                if isinstance(x, ast.Name) and isinstance(x.ctx, ast.Store):
+                    assigns.setdefault(x.id, []).append(None)
+
+    def is_b(e, d, seen):
+        if e is None:
+            return False
+        if isinstance(e, ast.Constant):
+            return isinstance(e.value, bool)
+        if isinstance(e, ast.Compare):
+            return True
+        if isinstance(e, ast.UnaryOp) and isinstance(e.op, ast.Not):
+            return True
+        if isinstance(e, ast.BoolOp):
+            return all(is_b(v, d, seen) for v in e.values)
+        if isinstance(e, ast.IfExp):
+            return is_b(e.body, d, seen) and is_b(e.orelse, d, seen)
+        if isinstance(e, ast.Call):
+            fn = dotted(e.func) or ''
+            if fn in ('any', 'all', 'isinstance', 'bool', 'callable', 'hasattr', 'issubclass'):
+                return True
+            if d > 0:
+                q = repo.resolve_dotted(callee.module, fn) if fn and not fn.startswith('self.') else None
+                if q in repo.funcs:
+                    return returns_bool(repo, repo.funcs[q], d - 1)
+                if isinstance(e.func, ast.Attribute):
+                    cands = [f for f in repo.funcs.values() if f.name == e.func.attr and f.cls]
+                    if len(cands) == 1:
+                        return returns_bool(repo, cands[0], d - 1)
+            return False
+        if isinstance(e, ast.Name):
+            if e.id in seen:
+                return True
+            if e.id not in assigns:
+                return False
+            return all(is_b(v, d, seen | {e.id}) for v in assigns[e.id])
+        return False
+    rets = [n.value for n in walk_shallow(node) if isinstance(n, ast.Return)]
+    gen = any(isinstance(n, (ast.Yield, ast.YieldFrom)) for n in walk_shallow(node))
+    ok = bool(rets) and not gen and all(is_b(r, depth, set()) for r in rets)
+    _RB_MEMO[key] = ok
     return ok
 
 
@@ -1741,6 +1866,33 @@ def effects(fi, keep=(), use_semiring=True, helper=None):
     consts = {k: v for k, v in module_constants(fi.module).items() if k not in rename and k not in params}
     consts.update(class_constants(fi, helper))
 
+    # names are resolved from the repository function under comparison, for both sides alike
+    repo_ = helper.repo if helper is not None else None
+    mod_ = helper.fi.module if helper is not None else None
+
+    def bool_call(t):
+        # a call of a repo function / uniquely named repo method all of whose returns are bools
+        if not (isinstance(t, tuple) and len(t) == 4 and t[0] == 'call') or repo_ is None:
+            return False
+        f_ = t[1]
+        if isinstance(f_, tuple) and f_[0] == 'fn' and isinstance(f_[1], str) and not f_[1].startswith('self.'):
+            q = repo_.resolve_dotted(mod_, f_[1])
+            return q in repo_.funcs and returns_bool(repo_, repo_.funcs[q])
+        name = f_[2] if isinstance(f_, tuple) and f_[0] == 'attr' and len(f_) == 3 else (
+            f_[1].split('.')[-1] if isinstance(f_, tuple) and f_[0] == 'fn' and isinstance(f_[1], str) else None)
+        if name:
+            cands = [f for f in repo_.funcs.values() if f.name == name and f.cls]
+            return len(cands) == 1 and returns_bool(repo_, cands[0])
+        return False
+
+    def debool(t):
+        # `True if f(..) else False` is `f(..)` when f returns bools only
+        if isinstance(t, tuple):
+            t = tuple(debool(x) for x in t)
+            if len(t) == 4 and t[0] == 'ifexp' and t[2] == ('const', 'True') and t[3] == ('const', 'False') and bool_call(t[1]):
+                return t[1]
+        return t
+
     def cz(x):
         if x is None:
             return None
@@ -1748,9 +1900,6 @@ def effects(fi, keep=(), use_semiring=True, helper=None):
         return semiring(t) if use_semiring else t
     NEG = {'Eq': 'NotEq', 'NotEq': 'Eq', 'Lt': 'GtE', 'GtE': 'Lt', 'Gt': 'LtE', 'LtE': 'Gt', 'Is': 'IsNot', 'IsNot': 'Is', 'In': 'NotIn', 'NotIn': 'In'}
 
-    # names are resolved from the repository function under comparison, for both sides alike
-    repo_ = helper.repo if helper is not None else None
-    mod_ = helper.fi.module if helper is not None else None
 
     def container_valued(t):
         if not isinstance(t, tuple) or not t:
